@@ -28,6 +28,19 @@ func (fr *Frame) term(st *State, x ssa.Value) *Term {
 
 func (fr *Frame) step(st *State, ins ssa.Instruction) {
 	v := fr.v
+	v.steps++
+	if v.steps > v.maxSteps {
+		unsup("step budget of %d instructions exceeded in %s (loop without invariant or callee without contract?)", v.maxSteps, fr.fn.Name())
+	}
+	if fr.top && fr.nextBefore < len(fr.beforeDefs) && !v.scratch {
+		if p := ins.Pos(); p.IsValid() {
+			for fr.nextBefore < len(fr.beforeDefs) && p >= fr.beforeDefs[fr.nextBefore].pos {
+				bd := fr.beforeDefs[fr.nextBefore]
+				fr.nextBefore++
+				fr.anchor(st, "beforedef", bd.name, -1)
+			}
+		}
+	}
 	if fr.top && fr.nextBlock < len(fr.blockEnds) && !v.scratch {
 		if p := ins.Pos(); p.IsValid() {
 			for fr.nextBlock < len(fr.blockEnds) && p > fr.blockEnds[fr.nextBlock] {
@@ -486,6 +499,13 @@ func (fr *Frame) binop(st *State, i *ssa.BinOp) Value {
 			fr.oblige(st, "div", nz, "divisor non-zero at "+fr.v.pos(i.Pos()))
 			st.pc = F.And(st.pc, nz)
 		}
+		if i.Op == token.REM {
+			lx, _, okx := F.Range(x)
+			ly, _, oky := F.Range(y)
+			if !ii.signed || (okx && oky && lx.Sign() >= 0 && ly.Sign() > 0) {
+				return F.Mod(x, y)
+			}
+		}
 		q := fr.truncDiv(x, y, ii)
 		if i.Op == token.QUO {
 			return fr.wrap(i.Type(), q)
@@ -543,7 +563,7 @@ func (fr *Frame) binop(st *State, i *ssa.BinOp) Value {
 			if base, ok := fr.v.orNeg[i.X]; ok && ii.signed && k == ii.w-1 {
 				return F.Ite(F.Eq(base, F.I64(0)), F.I64(0), F.I64(-1))
 			}
-			if k >= ii.w {
+			if k >= ii.w || (ii.signed && k == ii.w-1) {
 				if ii.signed {
 					return F.Ite(F.Lt(x, F.I64(0)), F.I64(-1), F.I64(0))
 				}
@@ -762,6 +782,14 @@ func (fr *Frame) stringEq(st *State, x, y *SliceV) *Term {
 
 func (fr *Frame) ifaceEq(st *State, x, y *IfaceV) *Term {
 	F := fr.v.F
+	// concrete dynamic type vs. nil
+	nilT := fr.v.nilIface()
+	if x.T == nil && x.V == nilT && y.T != nil {
+		return F.False()
+	}
+	if y.T == nil && y.V == nilT && x.T != nil {
+		return F.False()
+	}
 	if x.V == nil && x.T == nil {
 		if t, ok := y.V.(*Term); ok && y.T == nil {
 			return F.Eq(t, fr.v.nilIface())
